@@ -92,9 +92,13 @@ func (d *faultDriver) Open(name string) (driver.Conn, error) {
 
 type faultConn struct{ c *sqlite3.SQLiteConn }
 
-func (c *faultConn) Prepare(q string) (driver.Stmt, error) { return c.PrepareContext(context.Background(), q) }
-func (c *faultConn) Close() error                          { return c.c.Close() }
-func (c *faultConn) Begin() (driver.Tx, error)             { return c.BeginTx(context.Background(), driver.TxOptions{}) }
+func (c *faultConn) Prepare(q string) (driver.Stmt, error) {
+	return c.PrepareContext(context.Background(), q)
+}
+func (c *faultConn) Close() error { return c.c.Close() }
+func (c *faultConn) Begin() (driver.Tx, error) {
+	return c.BeginTx(context.Background(), driver.TxOptions{})
+}
 
 func (c *faultConn) BeginTx(ctx context.Context, opts driver.TxOptions) (driver.Tx, error) {
 	if err := point("begin"); err != nil {
